@@ -15,7 +15,7 @@ def main():
         locale_synth.ensure()
     except ImportError:
         pass
-    for v in ("asan",):
+    for v in ("asan", "tsan", "tsan_ndebug", "thr"):
         print("build", v, vbuild.build(v))
     return 0
 
